@@ -14,13 +14,15 @@ TEXT = {
  "C05": ("abstract interpretation on capture skeletons + capture census, numbering and terminator obligations; register regex constants evaluated over the README's x86 table",
          "Capturing groups only in first occurrences; registration order == emission order == group number; back-references carry their own name's number and a mandatory terminator; register-family regexes accept exactly the family at the selected width. Plus: group numbers do not depend on rules compiled earlier in the process."),
  "C06": ("sibling cross-check: compile pipeline interpreted on $deref skeletons vs the operand normaliser's decision table, both against one frozen glue/slot layout",
-         "Compiler template == '[' %?a ('+' %?b '*' (0x)?c)? ('+' (0x)?k)? ']' ',' for all presence patterns; normaliser rows == [s0+s1*s2(+outside)] / [inner(+outside)] built from the pieces of the parenthesised part. Plus: the operand splitter never cuts inside parentheses and nothing is added to the normalised operand list."),
+         "Compiler template == '[' %?a ('+' %?b '*' (0x)?c)? ('+' (0x)?k)? ']' ',' for all presence patterns; normaliser rows == [s0+s1*s2(+outside)] / [inner(+outside)] built from the pieces of the parenthesised part. Plus: the operand splitter never cuts inside parentheses and nothing is added to the normalised operand list. Plus (token templates): for every presence pattern and spelling the compiled $deref regex fully matches the normaliser's output for the operand with the same components, and rejects every other presence pattern."),
  "C07": ("regex-template obligations (Lemma B frame, separator discipline) on every node template + lint of the shipped macro file + def-use of the reported address",
          "Every instruction-level element starts with ADDR+'::' and ends by consuming '|'; every class/dot excludes the separators of its level; the address is split('::')[0] of the same group(0). Plus: one search from the start of the whole stream; every record's address field is the line's hex address group and its operands come only from the operand group; the parser and the consumer never swallow an exception (no instruction silently dropped)."),
+ "C08": ("NARROW: the repository's own line parser interpreted on token templates of the documented objdump line kinds and operand forms (exact regex matching on templates, no execution)",
+         "For 15 instruction-line shapes LineParser.parse returns exactly one Instruction carrying that line's address and mnemonic; blank lines, section / file-format headers, symbol labels and '...' give none, a byte-continuation line only the pseudo instruction the always-first observer removes; one result per line in file order; the operand forms objdump prints (C09's list and the scale-less 16-bit forms) do not make the normaliser raise. Not decided: line kinds and operand forms outside these lists (objdump's grammar is not in the repository)."),
  "C09": ("NARROW: abstract interpretation of the operand normaliser as a decision table over operand classes + shape of the split regex",
-         "For every feasible combination of the normaliser's syntactic tests the output template (literals + slot provenance) equals the row of the property; parse_operands is a 1:1 ordered map; the splitter is ',' not followed by [^(]*')'. Not decided: classification of arbitrary objdump operands. Plus: the lines reach the line parser as written and the operand list is the normalised split of the operand group only."),
+         "For every feasible combination of the normaliser's syntactic tests the output template (literals + slot provenance) equals the row of the property; parse_operands is a 1:1 ordered map; the splitter is ',' not followed by [^(]*')'. Not decided: classification of arbitrary objdump operands. Plus: the lines reach the line parser as written and the operand list is the normalised split of the operand group only. Plus (token templates): every operand form of the property's list is rewritten to its stated normal form on every path, operand lists split between operands only, whole lines give the stated record (branch target without its <symbol>)."),
  "C10": ("NARROW: writer template by abstract interpretation + field alphabets of the line regexes + comma-freeness of normaliser outputs",
-         "Record == addr '::' mnemonic ',' join(',', operands) + ',|', stream == in-order join; address class is hex, mnemonic class excludes ',' and blank, parenthesised commas never survive into a field. Not decided: '|' / '::' inside fields, injectivity in general. Plus: field kinds at every Instruction construction site; no half-parsed records (no swallowed exceptions)."),
+         "Record == addr '::' mnemonic ',' join(',', operands) + ',|', stream == in-order join; address class is hex, mnemonic class excludes ',' and blank, parenthesised commas never survive into a field. Not decided: '|' / '::' inside fields, injectivity in general. Plus: field kinds at every Instruction construction site; no half-parsed records (no swallowed exceptions). Plus (token templates): the record of 15 line shapes."),
  "C11": ("abstract interpretation of CompleteConsumer/MatchedObserver on an abstract listing (all paths) + API-usage rules",
          "One regex.finditer / regex.search call with exactly pattern, the whole in-order stream, timeout; every element forwarded once as group(0); no early exit; observer appends. Scan semantics are regex's (trusted)."),
  "C12": ("abstract interpretation of perform_matching for all mode combinations (all paths) + whole-program who-writes census",
@@ -32,7 +34,7 @@ TEXT = {
  "C15": ("abstract interpretation of both input routes; argv and data-flow obligations",
          "Exactly one subprocess.run(['objdump','-d','-M','att',('-j',s)*,file], capture_output, text, check); its stdout, unmodified, reaches the same parser/consumer as the assembly route's file text. objdump trusted. Plus: section names reach -j verbatim; for every accepted style the -M argument is not an Intel-syntax selector."),
  "C16": ("information-flow argument: abstract interpretation of LineParser.parse on an opaque line + shape rules on the line regexes",
-         "Only literals and capture groups of the line regexes reach an Instruction; groups see address digits / blank-free token / token without blank and '#'; presentation parts optional and unbounded; only Instruction results are forwarded. Plus: byte-only continuation lines (216 spacing variants, constant regexes on constant lines) never parse as instructions; the text is unmodified under every config key."),
+         "Only literals and capture groups of the line regexes reach an Instruction; groups see address digits / blank-free token / token without blank and '#'; presentation parts optional and unbounded; only Instruction results are forwarded. Plus: byte-only continuation lines (216 spacing variants, constant regexes on constant lines) never parse as instructions; the text is unmodified under every config key. Plus (token templates): 26 presentations of two instructions give one record each; the other line kinds give nothing."),
  "C17": ("error-discipline rules: syntactic handler/log rules + all-paths abstract interpretation under modelled faults and ill-formed rule shapes",
          "No path on which a fault occurred returns a verdict; accepted times bounds are validated on every returning path; ill-formed shapes and config values raise on every path; main() propagates. Plus: every returning path has parsed the input's text and searched the stream."),
  "C18": ("abstract interpretation of ValidAddrObserver/ValidAddrRange/HexType on abstract instructions and bounds (all paths) + installation rule via the match flow",
@@ -74,9 +76,7 @@ manifest = {
                  "kind_free_text": "repository-specific static analyser: resolved program facts (ast), abstract interpreter over a string-template/object domain with all-paths exploration, regex-template parser and obligations, censuses"}],
     "checks": checks,
     "notes": "Known findings: /verif/known_findings.json. Seeded changes used to calibrate the checks: /verif/seeded/. The checks analyse /repo's working tree on every run ($JASMSA_REPO overrides the tree for calibration only).",
-    "not_applicable": [
-        {"property_id": "C08", "reason": "quantifies over every line objdump can print for arbitrary bytes; objdump's output grammar is not in the repository, so no sound static argument is in reach; the source-visible clauses are already pinned by test_parsing (DESIGN.md 5)"}
-    ],
+    "not_applicable": [],
 }
 json.dump(manifest, open("/verif/MANIFEST.json", "w"), indent=1)
 print("checks:", len(checks))
